@@ -56,8 +56,8 @@ def _platforms():
         "cisco_iosxr": {
             "trail": "",
             "modes": {
-                "privilege_exec": {"line": r"RP/0/RP[01]/CPU0:" + host(48) + "#", "class": ["privilege_exec"]},
-                "configuration": {"line": r"RP/0/RP[01]/CPU0:" + host(48) + r"\(config(-" + SUBXR + r"{0,24})?\)#",
+                "privilege_exec": {"line": r"RP/0/RP[01]/CPU0:" + host(49) + "#", "class": ["privilege_exec"]},
+                "configuration": {"line": r"RP/0/RP[01]/CPU0:" + host(49) + r"\(config(-" + SUBXR + r"{0,30})?\)#",
                                   "class": ["configuration", "configuration_exclusive"]},
             },
         },
@@ -67,7 +67,7 @@ def _platforms():
                 "exec": {"line": hosta(63) + r"(\(maint-mode\))?>", "class": ["exec"]},
                 "privilege_exec": {"line": hosta(63) + r"(\(maint-mode\))?#", "class": ["privilege_exec"],
                                    "carve": [(r"-tcl", "host name containing -tcl (any case) reads as the tclsh prompt", "C05-nxos-tcl-host")]},
-                "configuration": {"line": hosta(63) + r"(\(maint-mode\))?\(config(-" + SUB + r"{0,24})?\)#", "class": ["configuration"],
+                "configuration": {"line": hosta(63) + r"(\(maint-mode\))?\(config(-" + SUB + r"{0,30})?\)#", "class": ["configuration"],
                                   "carve": [(r"\(.*config-tcl", "vendor: a decoration containing config-tcl is the tclsh-in-configuration prompt", None),
                                             (r"\(.*config-s\)", "vendor: a decoration ending in config-s) is the configuration-session prompt", None),
                                             (r"\(.*config-s-", "vendor: a decoration containing config-s- is a configuration-session sub-mode", None),
@@ -78,7 +78,7 @@ def _platforms():
                           "carve": [(r"-tcl.*-tcl", "host name containing -tcl", "C05-nxos-tcl-host"),
                                     (r"-tcl.*\(", "host name containing -tcl", "C05-nxos-tcl-host")]},
             },
-            "session": {"line": hosta(63) + r"(\(maint-mode\))?\(config-s(-" + SUB + r"{0,24})?\)#",
+            "session": {"line": hosta(63) + r"(\(maint-mode\))?\(config-s(-" + SUB + r"{0,29})?\)#",
                         "carve": [(r"-tcl", "host name containing -tcl", "C05-nxos-tcl-host")]},
         },
         "arista_eos": {
@@ -86,11 +86,11 @@ def _platforms():
             "modes": {
                 "exec": {"line": hosta(63) + ">", "class": ["exec"]},
                 "privilege_exec": {"line": hosta(63) + "#", "class": ["privilege_exec"]},
-                "configuration": {"line": hosta(63) + r"\(config(-[A-Za-z0-9][A-Za-z0-9\-]{0,55})?\)#", "class": ["configuration"],
+                "configuration": {"line": hosta(63) + r"\(config(-[A-Za-z0-9][A-Za-z0-9\-]{0,61})?\)#", "class": ["configuration"],
                                   "carve": [(r"\(config-s-", "vendor: (config-s-<name>) is the configuration-session prompt", None)]},
             },
             # session NAME: the prompt shows its first 6 characters
-            "session": {"line_fmt": hosta(63) + r"\(config-s-%s(-[A-Za-z0-9][A-Za-z0-9\-]{0,40})?\)#"},
+            "session": {"line_fmt": hosta(63) + r"\(config-s-%s(-[A-Za-z0-9][A-Za-z0-9\-]{0,62})?\)#"},
         },
         "juniper_junos": {
             "trail": " ?",
